@@ -139,7 +139,7 @@ def oracle_shared(sc):
     return None, []
 
 
-def model_mismatches(cases, shared=()):
+def model_mismatches(cases, shared=(), name="c18_cases"):
     """Evaluate the Coq model on the same cases inside Coq; return indexes that differ (cases), the raw output, and the
     indexes of the shared-logger scenarios whose per-step output differs from the model's sh_run."""
     simple, slog, noop, shr = [], [], [], []
@@ -191,7 +191,7 @@ Definition SHAREDBAD := Eval vm_compute in map fst (filter (fun c => let '(_, (p
 Print SHAREDBAD.
 """ % (coq_list(simple) if simple else "[]", coq_list(slog) if slog else "[]", coq_list(noop) if noop else "[]",
        coq_list(shr) if shr else "[]")
-    rc, out = vlib.coq_eval(PROJ, "c18_cases", v)
+    rc, out = vlib.coq_eval(PROJ, name, v)
     if rc != 0:
         return None, out, None
     import re
@@ -203,6 +203,29 @@ Print SHAREDBAD.
         body = m.group(1).strip("[]").strip()
         res.append([int(x.replace("%nat", "").strip()) for x in body.split(";") if x.strip()] if body else [])
     return res[0], out, res[1]
+
+
+def model_mismatches_parallel(cases, shared, parts=3):
+    """The same comparison, the cases split over `parts` coqc processes (wall time; the cases are independent)."""
+    import threading
+    size = (len(cases) + parts - 1) // parts or 1
+    res = [None] * parts
+
+    def work(k):
+        res[k] = model_mismatches(cases[k * size:(k + 1) * size], shared if k == 0 else (), name="c18_cases_%d" % k)
+    ts = [threading.Thread(target=work, args=(k,)) for k in range(parts)]
+    for t in ts:
+        t.start()
+    for t in ts:
+        t.join()
+    idx, sidx, outs = [], [], []
+    for k, r in enumerate(res):
+        if r is None or r[0] is None:
+            return None, (r[1] if r else "model evaluation thread failed"), None
+        idx += [k * size + i for i in r[0]]
+        sidx += r[2]
+        outs.append(r[1])
+    return idx, "\n".join(outs), sidx
 
 
 def run_matrix(binp):
@@ -227,6 +250,22 @@ def shared_failure(sc, k, why):
             "why": why,
             "how": "logh shared: several SimpleLoggers created at different times over ONE *log.Logger, one call at a time; "
                    "the lines each call wrote to the shared log.Logger are recorded"}
+
+
+WRITERS_HOW = ("logh writers: G goroutines log N records each (mixed levels, message and arguments carry goroutine and record number) through ONE "
+               "logger into a writer that appends each Write call in CHUNK-byte pieces with a yield after each piece (memory-safe, but "
+               "not atomic per call) and counts Write calls that start while another is in progress; afterwards every line must be "
+               "exactly one logged record (own label, message, all key/value arguments in order) and every record must have its line")
+
+
+def oracle_writers(w):
+    why = []
+    if w["torn"] or w["missing"] or w["lines"] != w["expected_lines"]:
+        why.append("%d goroutines x %d records through one %s logger: %d of %d lines are not exactly one logged record (first: %r); %d records have "
+                   "no line of their own (first: %r); the writer saw %d Write calls that overlapped another one (of %d)" % (
+                       w["goroutines"], w["per_goroutine"], w["logger"], w["torn"], w["lines"], w.get("first_torn"), w["missing"],
+                       w.get("first_missing"), w["overlapping_write_calls"], w["write_calls"]))
+    return why
 
 
 def run_stress(binp, g, n, seed):
@@ -268,7 +307,7 @@ def run(ctx):
     cases = cases + [c for c in hostile if not c.get("no_model") and c["thr"] == -8]
     idx = None
     if res.get("ok") or os.path.exists(os.path.join(vlib.coq_dir(PROJ), "theories", "Logger.vo")):
-        idx, mout, sidx = model_mismatches(cases, shared)
+        idx, mout, sidx = model_mismatches_parallel(cases, shared)
         if idx is None:
             mismatches.append({"error": "model evaluation failed", "detail": mout[-1500:]})
         else:
@@ -288,6 +327,16 @@ def run(ctx):
                                  s["mislabelled"], s["lines"], s["first_bad"])],
                              "how": "logh stress: goroutines log records that embed their level through one SimpleLogger"})
 
+    # concurrent records into a writer that is not atomic per Write call (it relies on package log / slog serialising Write)
+    wrounds = [(8, 1500, 5), (16, 600, 16)] if ctx.tier == "quick" else [(8, 20000, 5), (16, 8000, 16), (32, 4000, 3), (2, 40000, 7)]
+    writers = []
+    for k, (g, n, chunk) in enumerate(wrounds):
+        for w in run_lines(binp, ["writers", str(g), str(n), str(chunk), str(ctx.seed + 50 + k)]):
+            writers.append(w)
+            why = oracle_writers(w)
+            if why:
+                failures.append({"case": w, "why": why, "how": WRITERS_HOW})
+
     def search():
         found = []
         for k in range(6):
@@ -303,7 +352,8 @@ def run(ctx):
     distinct = len({json.dumps([c["kind"], c["thr"], c["lvl"], c["msg"], c["args"]]) for c in emitted if c["args"]})
     cov = vlib.proof_coverage(res, PROJ, "C18")
     cov.update({
-        "evaluations": len(cases) + len(hostile) + sum(s["lines"] for s in stress),
+        "evaluations": len(cases) + len(hostile) + sum(s["lines"] for s in stress) + sum(w["lines"] for w in writers),
+        "writers_rounds": writers,
         "distinct_nontrivial": distinct,
         "rule": "matrix: 15 thresholds x 5 levels x 9 argument lists on SimpleLogger and SlogLogger (+NoOp), compared with the Coq model "
                 "evaluated inside Coq (vm_compute) and with a property oracle; non-trivial = an emitted record with at least one argument. "
@@ -312,7 +362,10 @@ def run(ctx):
                 "Error()/String(), nil interface, nil slice/map, controls) x 5 positions (key, value, tail, both, middle) on both loggers, "
                 "each followed by a later record through the same logger under a watchdog. shared: 12 scenarios (4 scripted, 8 random "
                 "from the seed) of up to 6 SimpleLoggers created at different times over one *log.Logger, interleaved sequential "
-                "emissions, every line must carry exactly its own level's label",
+                "emissions, every line must carry exactly its own level's label. matrix also: 16 thresholds at the extremes of the "
+                "64-bit Level type and around the 32-bit limits (2 argument lists). writers: G goroutines x N records through one "
+                "SimpleLogger / one SlogLogger(TextHandler) into a writer that is not atomic per Write call, every line must be exactly "
+                "one logged record",
         "samples": cases[3:6] + [stress[0]],
         "exhaustive": False,
         "model_mismatches": len(mismatches),
@@ -345,6 +398,15 @@ def replay(ctx, path):
             vlib.report_violation(ctx, obj)
             return 1
         return 0
+    if c.get("kind") == "writers":
+        bad = 0
+        for w in run_lines(binp, ["writers", str(c["goroutines"]), str(c["per_goroutine"]), str(c["chunk"]), str(c["seed"])]):
+            why = oracle_writers(w)
+            print(json.dumps({"case": w, "why": why}))
+            if why and not bad:
+                vlib.report_violation(ctx, {"case": w, "why": why, "how": WRITERS_HOW})
+                bad = 1
+        return bad
     if c.get("kind") == "shared":
         for sc in run_lines(binp, ["shared", str(c["seed"])]):
             if sc["scenario"] == c["scenario"]:
